@@ -61,16 +61,17 @@ type EngStats struct {
 }
 
 type Eng struct {
-	prog    *ssa.Program
-	ld      *Loaded
-	tb      *TB
-	solver  *Solver
-	cfg     Config
-	bypass  string // intrinsic name to skip on the next call (callReal)
-	globals map[*ssa.Global]*Value
-	pkgInit map[*ssa.Package]int // 0 not started, 1 running, 2 done
-	undo    []undoRec
-	nobj    int
+	prog            *ssa.Program
+	ld              *Loaded
+	tb              *TB
+	solver          *Solver
+	cfg             Config
+	bypass          string // intrinsic name to skip on the next call (callReal)
+	lastModelResult Result
+	globals         map[*ssa.Global]*Value
+	pkgInit         map[*ssa.Package]int // 0 not started, 1 running, 2 done
+	undo            []undoRec
+	nobj            int
 
 	readMemo   map[readKey]*Term
 	refineMemo map[int]int
